@@ -1,0 +1,22 @@
+//go:build verif
+// +build verif
+
+package main
+
+import (
+	"os"
+	"strconv"
+
+	"rcproxy/core"
+)
+
+// Verification builds only: RCPROXY_VERIF_STREAMBUF overrides the per-read
+// buffer size / static outbound threshold (core.MaxStreamBufferCap), so that
+// the leftover and spill paths run on every request instead of rarely.
+func init() {
+	if v := os.Getenv("RCPROXY_VERIF_STREAMBUF"); v != "" {
+		if n, err := strconv.Atoi(v); err == nil && n > 0 {
+			core.MaxStreamBufferCap = n
+		}
+	}
+}
